@@ -19,6 +19,26 @@ def _make(rng, convertible=False, scale=1):
               boundaries=bounds, regen=lambda rng2: _make(rng2, convertible, scale=10))
     v.expect_las = len(model.passes)
     v.model = model
+
+    def corruptor(rng2, data=data):
+        """Damage that leaves the first block (what the type check looks at) intact: the file is still taken for a BIT file."""
+        first = 12 + 276
+        if len(data) <= first + 16:
+            return 'bit-truncated-in-data', data[:max(0, len(data) - 3)]
+        k = rng2.random()
+        if k < 0.5:
+            return 'bit-truncated-in-data', data[:rng2.randrange(first + 1, len(data) - 1)]
+        b = bytearray(data)
+        if k < 0.8:
+            # a TIF marker after the first block: its 'next' word
+            cands = [m for m in bounds if m >= first] or [first]
+            m = rng2.choice(cands)
+            b[m + 8:m + 12] = rng2.choice([b'\x00\x00\x00\x00', b'\xff\xff\xff\x7f', b'\x01\x00\x00\x00', bytes(rng2.getrandbits(8) for _ in range(4))])
+            return 'bit-marker-damaged', bytes(b[:len(data)])
+        i = rng2.randrange(first, len(b))
+        del b[i:i + rng2.randrange(1, 7)]
+        return 'bit-bytes-deleted-in-data', bytes(b)
+    v.corruptor = corruptor
     return v
 
 
